@@ -196,6 +196,55 @@ func c31Mutex(p *an.Prog, r *an.R) {
 				if viaClosure && !(held && deferred) {
 					continue // decided in the closure's own scope
 				}
+				if !(held && deferred) {
+					// the callback is handed to a function of the package that takes the lock itself
+					sc.g.Contains(l, func(m ast.Node) bool {
+						c, ok := m.(*ast.CallExpr)
+						if !ok {
+							return false
+						}
+						callee := an.Callee(info, c)
+						if callee == nil || callee.Pkg() != f.Pkg() {
+							return false
+						}
+						hd := p.Decl(callee)
+						if hd == nil || hd.Decl.Body == nil {
+							return false
+						}
+						for i, a := range c.Args {
+							if !an.UsesObj(info, a, fParam) {
+								continue
+							}
+							hp := an.Param(info, hd.Decl, i)
+							if hp == nil {
+								continue
+							}
+							hg := an.NewG(info, hd.Decl.Body)
+							all, n := true, 0
+							for _, hl := range hg.Locs(func(ast.Node) bool { return true }) {
+								direct := hg.Contains(hl, func(k ast.Node) bool {
+									cc, ok := k.(*ast.CallExpr)
+									return ok && an.UsesObj(info, cc.Fun, hp)
+								})
+								if !direct {
+									continue
+								}
+								n++
+								prev := aliasScope
+								aliasScope = hd.Decl.Body
+								h2, d2 := lockOK(hg, hl)
+								aliasScope = prev
+								if !(h2 && d2) {
+									all = false
+								}
+							}
+							if n > 0 && all {
+								held, deferred = true, true
+							}
+						}
+						return false
+					})
+				}
 				if sc.lit != nil && !(held && deferred) {
 					// the closure expects the lock: every call site of it in the method body holds it
 					all, calls := true, 0
@@ -232,7 +281,16 @@ func c31Mutex(p *an.Prog, r *an.R) {
 		}
 		// the marker protocol lives where the callback is called directly: With itself, or the method of the
 		// package that With hands the callback to
-		if !callsFDirect(d.Decl.Body, fParam) {
+		hasLookup := false
+		ast.Inspect(d.Decl.Body, func(n ast.Node) bool {
+			if as, ok := n.(*ast.AssignStmt); ok && len(as.Lhs) == 2 && len(as.Rhs) == 1 {
+				if ix, ok := ast.Unparen(as.Rhs[0]).(*ast.IndexExpr); ok && selField(info, ix.X, running) {
+					hasLookup = true
+				}
+			}
+			return true
+		})
+		if !callsFDirect(d.Decl.Body, fParam) && !hasLookup {
 			var innerD *an.DeclInfo
 			var innerF types.Object
 			var innerFn *types.Func
@@ -336,6 +394,33 @@ func c31Mutex(p *an.Prog, r *an.R) {
 				for _, ul := range bg.Locs(func(ast.Node) bool { return true }) {
 					if isUnlock(ul) && bg.Reach(ul, true, &an.Search{Target: func(k an.Loc) bool { return k == l }, Cut: isLock}) {
 						unlocked = true
+					}
+				}
+				if unlocked && body != d.Decl.Body {
+					// a helper that expects runningMu: every call site of it in the package holds the lock
+					var hfn *types.Func
+					for hf, hd := range helpers {
+						if hd.Decl.Body == body {
+							hfn = hf
+						}
+					}
+					if hfn != nil {
+						callers, allHold := 0, true
+						p.AllDecls(func(cf *types.Func, cd *an.DeclInfo) {
+							if cd.Pkg != d.Pkg || cd.Decl.Body == nil || cf == hfn {
+								return
+							}
+							cg := an.NewG(info, cd.Decl.Body)
+							for _, cl := range cg.Locs(func(n ast.Node) bool { return len(an.CallsTo(info, n, false, hfn)) > 0 }) {
+								callers++
+								if !lockHeldAt(cg, info, cl, runningMu, "Lock") {
+									allHold = false
+								}
+							}
+						})
+						if callers > 0 && allHold {
+							unlocked = false
+						}
 					}
 				}
 				r.Check(!unlocked, "C31.R1", fname+"/running-under-runningMu", bg.Node(l).Pos(), "running is accessed between runningMu.Lock and Unlock", "the running set is accessed without runningMu held: two With calls race on the map and both may see the repository as free")
@@ -452,11 +537,35 @@ func c31Mutex(p *an.Prog, r *an.R) {
 				continue
 			}
 			tv := info.Types[rs.Results[0]]
-			if tv.Value == nil {
+			retVal := ""
+			if tv.Value != nil {
+				retVal = tv.Value.String()
+			} else if c, ok := ast.Unparen(rs.Results[0]).(*ast.CallExpr); ok {
+				// a helper of the package whose every return is the same bool constant
+				if hd := p.Decl(an.Callee(info, c)); hd != nil && hd.Decl.Body != nil && hd.Pkg == d.Pkg {
+					vals := map[string]bool{}
+					ast.Inspect(hd.Decl.Body, func(m ast.Node) bool {
+						if hr, ok := m.(*ast.ReturnStmt); ok {
+							if len(hr.Results) == 1 && info.Types[hr.Results[0]].Value != nil {
+								vals[info.Types[hr.Results[0]].Value.String()] = true
+							} else {
+								vals["?"] = true
+							}
+						}
+						return true
+					})
+					if len(vals) == 1 && !vals["?"] {
+						for v := range vals {
+							retVal = v
+						}
+					}
+				}
+			}
+			if retVal == "" {
 				r.Und("C31.R2", fname+"/return/non-constant", rs.Pos(), "With returns a non-constant value; the ran/skipped report cannot be decided")
 				continue
 			}
-			if tv.Value.String() == "true" {
+			if retVal == "true" {
 				skipsF := g.Reach(g.Entry(), false, &an.Search{Target: func(k an.Loc) bool { return k == l }, Cut: isF})
 				r.Check(!skipsF, "C31.R2", fname+"/return-true/after-f", rs.Pos(), "`return true` only after f() ran", "With can return true without having called f(): a skipped operation is reported as run")
 			} else {
